@@ -997,6 +997,8 @@ func intrWriteFile(c *Ctx, a []Value) Value {
 	var segs []Seg
 	for _, e := range a[1].(Slice).Elems {
 		switch e := e.(type) {
+		case AtomBytes:
+			segs = append(segs, Seg{D: e.D})
 		case int64:
 			segs = append(segs, Seg{S: string([]byte{byte(e)})})
 		case *sym.Term:
